@@ -14,15 +14,17 @@ for sid in sorted(os.listdir(os.path.join(ROOT, "seeded"))):
             return {}
     meta, val, det = load("meta.json"), load("validation.json"), load("detection.json")
     obl = ""
+    replayed = 0
     for pid, c in (det.get("checks") or {}).items():
+        replayed += c.get("replayed_on_real_code") or sum(1 for v in c.get("violations") or [] if "no-failing-input-found" not in v)
         for v in c.get("violations") or []:
             if "obligation=" in v:
                 obl = v.split("obligation=", 1)[1][:110]
                 break
     rows.append((sid, meta.get("property", ""), "yes" if val.get("valid") else "?", "DETECTED" if det.get("detected") else ("missed" if det else "not run"),
-                 ",".join((det.get("checks") or {}).keys()), obl.replace("|", "/"), (meta.get("summary") or "")[:140].replace("|", "/").replace("\n", " ")))
+                 ",".join((det.get("checks") or {}).keys()) + (" (input replayed on the real code)" if replayed else ""), obl.replace("|", "/"), (meta.get("summary") or "")[:140].replace("|", "/").replace("\n", " ")))
 with open(os.path.join(ROOT, "seeded", "SUMMARY.md"), "w") as f:
-    f.write("# Seeded changes and the checks that catch them\n\nWritten by tools_seed_summary.py from the last tools_run_seeds.py run of each seed.\n\n")
+    f.write("# Seeded changes and the checks that catch them\n\nWritten by tools_seed_summary.py from the last run of each seed (tools_run_seeds.py on /repo itself, or tools_run_seeds_lanes.py on throw-away copies of its working tree).\n\n")
     f.write("| seed | property | validated | outcome | check run | first failing obligation | change |\n|---|---|---|---|---|---|---|\n")
     for r in rows:
         f.write("| " + " | ".join(r) + " |\n")
